@@ -303,23 +303,28 @@ def gen_offer_cases(rng, budget):
 GENS = {'C01': gen_swap_cases, 'C06': gen_swap_cases, 'C12': gen_offer_cases}
 
 
+SCENARIO_PROPS = ('C01', 'C02', 'C03', 'C04', 'C05', 'C06', 'C07', 'C09', 'C12', 'C14', 'C15', 'C20')
+
+
 def search(pid, failure, tier, seed):
-    """After a rejected obligation: look for a concrete failing input on the real code. Returns dict or None."""
-    if pid not in PREDS:
-        return None
+    """After a rejected / undecidable obligation: look for a concrete failing input on the real code. Returns dict or None."""
     rng = random.Random(seed * 1000003 + 17)
-    budget = 4000 if tier == 'quick' else 80000
-    cases = GENS[pid](rng, budget)
-    step = 2000
-    for i in range(0, len(cases), step):
-        chunk = cases[i:i + step]
-        outs = run_cases(chunk)
-        if outs is None:
-            return None
-        for c, o in zip(chunk, outs):
-            why = PREDS[pid](c, o)
-            if why:
-                return dict(case=c, result=o, why=why, replay_kind=pid)
+    if pid in PREDS:
+        budget = 4000 if tier == 'quick' else 80000
+        cases = GENS[pid](rng, budget)
+        step = 2000
+        for i in range(0, len(cases), step):
+            chunk = cases[i:i + step]
+            outs = run_cases(chunk)
+            if outs is None:
+                return None
+            for c, o in zip(chunk, outs):
+                why = PREDS[pid](c, o)
+                if why:
+                    return dict(case=c, result=o, why=why, replay_kind=pid)
+    if pid in SCENARIO_PROPS:
+        from . import scen
+        return scen.search_scenarios(run_cases, pid, rng, 1200 if tier == 'quick' else 20000)
     return None
 
 
@@ -352,7 +357,13 @@ def replay_file(path):
     if outs is None:
         print('replay crate unavailable:', build.error)
         return 2
-    why = PREDS[ce['replay_kind']](ce['case'], outs[0])
+    if ce['replay_kind'].startswith('scenario:'):
+        from . import scen
+        pidk = ce['replay_kind'].split(':')[1]
+        vs = [x for x in scen.check_scenario(ce['case'], outs[0].get('out', {})) if x[0] == pidk] if outs[0].get('ok') else []
+        why = vs[0][1] if vs else None
+    else:
+        why = PREDS[ce['replay_kind']](ce['case'], outs[0])
     print('case:', json.dumps(ce['case']))
     print('result on current /repo:', json.dumps(outs[0]))
     if why:
